@@ -29,7 +29,16 @@ template class Interval<float, 3>;
   template SphericalCoordinates<S> toSpherical<S>(const CartesianCoordinates3<S> &); \
   template SphericalCoordinates<S> toSpherical<S>(const HomogeneousCoordinates3<S> &); \
   template CartesianCoordinates3<S> toCartesian<S>(const SphericalCoordinates<S> &); \
-  template HomogeneousCoordinates3<S> toHomogeneous<S>(const SphericalCoordinates<S> &);
+  template HomogeneousCoordinates3<S> toHomogeneous<S>(const SphericalCoordinates<S> &); \
+  template S romea_verif_scalar_api<S>(S, S, S);
+// the scalar overloads of the coordinate transforms are instantiated through calls (overload resolution), not through explicit instantiations, so that a change of a parameter's
+// order or constness still yields a unit the front end accepts
+template<typename S> S romea_verif_scalar_api(S a, S b, S c)
+{
+  return SphericalTransform::range(a, b, c) + SphericalTransform::azimut(a, b) + SphericalTransform::elevation(a, b) + SphericalTransform::elevation(a, b, c) +
+         SphericalTransform::x(a, b, c) + SphericalTransform::y(a, b, c) + SphericalTransform::z(a, b) + PolarTransform::azimut(a, b) + PolarTransform::range(a, b) +
+         PolarTransform::x(a, b) + PolarTransform::y(a, b);
+}
 #define ROMEA_VERIF_CONT(P) std::vector<P, Eigen::aligned_allocator<P>>
 template Eigen::Array2d min<ROMEA_VERIF_CONT(Eigen::Array2d)>(const ROMEA_VERIF_CONT(Eigen::Array2d) &);
 template Eigen::Array2d max<ROMEA_VERIF_CONT(Eigen::Array2d)>(const ROMEA_VERIF_CONT(Eigen::Array2d) &);
